@@ -101,8 +101,113 @@ unsafe fn really_free(user: *mut u8) {
     System.dealloc(base, real);
 }
 
+// ---------------------------------------------------------------------------
+// Packed mode: while a thread has it switched on, its requests of at most 32 bytes are served from an arena of
+// 32-byte slots without in-band headers (most recently freed slot first), as size-class allocators (jemalloc,
+// mimalloc, slabs) do: two blocks can then be direct neighbours, which never happens with the padded blocks
+// above or with glibc. The layout checks are the same, from a side table.
+
+const SLOT: usize = 32;
+const SLOTS: usize = 4096;
+
+#[repr(C, align(64))]
+struct Arena(std::cell::UnsafeCell<[u8; SLOT * SLOTS]>);
+unsafe impl Sync for Arena {}
+static ARENA: Arena = Arena(std::cell::UnsafeCell::new([0; SLOT * SLOTS]));
+/// per slot: 0 = never used, otherwise (size << 8 | align.trailing_zeros() << 1 | live)
+static SLOT_META: [AtomicU64; SLOTS] = [const { AtomicU64::new(0) }; SLOTS];
+static ARENA_LOCK: AtomicBool = AtomicBool::new(false);
+static mut FREE_STACK: [u16; SLOTS] = [0; SLOTS];
+static FREE_TOP: AtomicUsize = AtomicUsize::new(0);
+static BUMP: AtomicUsize = AtomicUsize::new(0);
+pub static PACKED_LIVE: AtomicI64 = AtomicI64::new(0);
+
+thread_local! {
+    static PACKED: Cell<bool> = const { Cell::new(false) };
+}
+
+/// Runs `f` with this thread's small allocations served from the packed arena.
+pub fn packed<T>(f: impl FnOnce() -> T) -> T {
+    struct Reset(bool);
+    impl Drop for Reset {
+        fn drop(&mut self) {
+            PACKED.with(|s| s.set(self.0));
+        }
+    }
+    let prev = PACKED.with(|s| s.replace(true));
+    let _r = Reset(prev);
+    f()
+}
+
+pub fn packed_live() -> i64 {
+    PACKED_LIVE.load(Ordering::Relaxed)
+}
+
+fn arena_base() -> usize {
+    ARENA.0.get() as usize
+}
+
+fn arena_lock() {
+    while ARENA_LOCK.compare_exchange_weak(false, true, Ordering::Acquire, Ordering::Relaxed).is_err() {
+        std::hint::spin_loop();
+    }
+}
+
+unsafe fn packed_alloc(layout: Layout) -> *mut u8 {
+    arena_lock();
+    let top = FREE_TOP.load(Ordering::Relaxed);
+    let slot = if top > 0 {
+        FREE_TOP.store(top - 1, Ordering::Relaxed);
+        (*std::ptr::addr_of!(FREE_STACK))[top - 1] as usize
+    } else {
+        let b = BUMP.load(Ordering::Relaxed);
+        if b >= SLOTS {
+            ARENA_LOCK.store(false, Ordering::Release);
+            return std::ptr::null_mut();
+        }
+        BUMP.store(b + 1, Ordering::Relaxed);
+        b
+    };
+    SLOT_META[slot].store((layout.size() as u64) << 8 | (layout.align().trailing_zeros() as u64) << 1 | 1, Ordering::Relaxed);
+    ARENA_LOCK.store(false, Ordering::Release);
+    PACKED_LIVE.fetch_add(1, Ordering::Relaxed);
+    (arena_base() + slot * SLOT) as *mut u8
+}
+
+unsafe fn packed_dealloc(user: *mut u8, layout: Layout) {
+    let off = user as usize - arena_base();
+    let slot = off / SLOT;
+    let meta = SLOT_META[slot].load(Ordering::Relaxed);
+    if off % SLOT != 0 || meta == 0 {
+        record(&BAD_FREE, user as u64, layout.size() as u64, layout.align() as u64, meta);
+        return;
+    }
+    if meta & 1 == 0 {
+        record(&DOUBLE_FREE, user as u64, layout.size() as u64, layout.align() as u64, 0);
+        return;
+    }
+    let (size, align) = ((meta >> 8) as usize, 1usize << ((meta >> 1) & 0x7f));
+    if size != layout.size() || align != layout.align() {
+        record(&LAYOUT_MISMATCH, size as u64, align as u64, layout.size() as u64, layout.align() as u64);
+    }
+    std::ptr::write_bytes(user, POISON, SLOT);
+    arena_lock();
+    SLOT_META[slot].store(meta & !1, Ordering::Relaxed);
+    let top = FREE_TOP.load(Ordering::Relaxed);
+    (*std::ptr::addr_of_mut!(FREE_STACK))[top] = slot as u16;
+    FREE_TOP.store(top + 1, Ordering::Relaxed);
+    ARENA_LOCK.store(false, Ordering::Release);
+    PACKED_LIVE.fetch_sub(1, Ordering::Relaxed);
+}
+
 unsafe impl GlobalAlloc for CheckAlloc {
     unsafe fn alloc(&self, layout: Layout) -> *mut u8 {
+        if layout.size() <= SLOT && layout.size() > 0 && layout.align() <= SLOT && PACKED.try_with(|p| p.get()).unwrap_or(false) {
+            let p = packed_alloc(layout);
+            if !p.is_null() {
+                return p;
+            }
+        }
         let pad = pad_for(layout.align());
         let real = match Layout::from_size_align(layout.size() + pad, layout.align().max(16)) {
             Ok(l) => l,
@@ -130,6 +235,9 @@ unsafe impl GlobalAlloc for CheckAlloc {
     }
 
     unsafe fn dealloc(&self, user: *mut u8, layout: Layout) {
+        if (user as usize).wrapping_sub(arena_base()) < SLOT * SLOTS {
+            return packed_dealloc(user, layout);
+        }
         let h = header_of(user);
         let magic = (*h).magic;
         if magic == MAGIC_FREE {
